@@ -148,6 +148,9 @@ def hostile_op(rng, w, conv):
     if r < 0.12:
         # a recent packet re-delivered with its sequence number moved back: a segment that straddles rcv_nxt (partially duplicate data)
         return "j%s%d:4~%d" % (w, rng.randrange(0, 16), rng.choice([1, 2, 10, 100, 180, 500, 1000, 1283]))
+    if r < 0.18:
+        # an ACK whose timestamp echo is zero and whose window shrinks (a foreign implementation, or a clock reading 0)
+        return "j%s%d:20=0,21=0,22=0,23=0,14=%d,15=%d" % (w, rng.randrange(0, 12), rng.choice([0, 0, 1, 4]), rng.choice([0, 1, 100, 255]))
     if r < 0.35:
         # mutate a recent packet: header field offsets 0-3 conv, 4-7 seq, 8-11 ack, 13 flags, 14-15 wnd, 16-23 ts, 24.. data/options
         muts = []
@@ -176,7 +179,11 @@ def hostile_op(rng, w, conv):
                 else:
                     ol = rng.choice([0, 1, 1, 2, 40, 255])
                     opts += bytes([k, ol]) + bytes(rng.choice([0, 1, 14, 15, 31, 32, 200, 255]) for _ in range(min(ol, 3)))
-            b[25:] = opts[:max(0, n - 25)]
+            if rng.random() < 0.3:
+                opts.append(rng.choice([2, 3, 77, 254]))       # a dangling option kind as the very last byte: its length byte lies outside the packet
+                b = b[:25] + opts                               # exactly sized: the packet ends with the option list
+            else:
+                b[25:] = opts[:max(0, n - 25)]
     return "i%s%s" % (w, bytes(b).hex() if b else "-")
 
 
